@@ -7,10 +7,13 @@
 // "wide enough" is W >= (m+1)*d by construction and is recorded in the case (`cfg` line).
 // The harness prints route() and displayRoute() of every connector after processTransaction();
 // the Lean driver (Driver/C10.lean) runs the proven checkers of Check/Nudge.lean on them.
-// No hook is used: the per-region VPSC constraints are not observed (DESIGN hook H1 skipped).
+// Hook H1 (harness/c10_regions.h): when /repo carries the guarded hook, every region that nudgeOrthogonalRoutes
+// forms is dumped (ordered segments, variables, constraints of every attempt, solver outcome, write-back) and the
+// driver compares it with Model/NudgeRegion.lean; without the hook the harness prints `hook 0`.
 #include "common.h"
 #include "libavoid/libavoid.h"
 #include "libvpsc/assertions.h"
+#include "c10_regions.h"
 #include <unistd.h>
 #include <set>
 using namespace Avoid;
@@ -105,7 +108,9 @@ static bool cpMidCase(const vh::Args &a, long k, int argc, char **argv) {
             conns.push_back(c);
         }
         fflush(stdout);
+        c10r::arm();
         router->processTransaction();
+        c10r::dump();
         for (int i = 0; i < m; ++i) {
             pts("route", i, conns[i]->route(), transpose);
             pts("disp", i, conns[i]->displayRoute(), transpose);
@@ -114,6 +119,7 @@ static bool cpMidCase(const vh::Args &a, long k, int argc, char **argv) {
         vh::endCase();
         delete router;
     } catch (vpsc::CriticalFailure &f) {
+        c10r::dump();
         printf("assert %s\n", oneLine(f.what()).c_str());
         vh::endCase();
         if (a.only >= 0) _exit(0);
@@ -208,7 +214,9 @@ static bool endSegTieCase(const vh::Args &a, long k, int argc, char **argv) {
             conns.push_back(c);
         }
         fflush(stdout);
+        c10r::arm();
         router->processTransaction();
+        c10r::dump();
         for (int i = 0; i < m; ++i) {
             pts("route", i, conns[i]->route(), transpose);
             pts("disp", i, conns[i]->displayRoute(), transpose);
@@ -217,6 +225,7 @@ static bool endSegTieCase(const vh::Args &a, long k, int argc, char **argv) {
         vh::endCase();
         delete router;
     } catch (vpsc::CriticalFailure &f) {
+        c10r::dump();
         printf("assert %s\n", oneLine(f.what()).c_str());
         vh::endCase();
         if (a.only >= 0) _exit(0);
@@ -326,7 +335,9 @@ int main(int argc, char **argv) {
             }
             (void) c1;
             fflush(stdout);
+            c10r::arm();
             router->processTransaction();
+            c10r::dump();
             for (int i = 0; i < m; ++i) {
                 pts("route", i, conns[i]->route(), transpose);
                 pts("disp", i, conns[i]->displayRoute(), transpose);
@@ -337,7 +348,8 @@ int main(int argc, char **argv) {
         } catch (vpsc::CriticalFailure &f) {
             // libraries are built with -DUSE_ASSERT_EXCEPTIONS: a failed COLA_ASSERT costs one case
             // (reported in the stream); continue in a fresh process image, see harness/c11.cpp
-            printf("assert %s\n", oneLine(f.what()).c_str());
+            c10r::dump();
+        printf("assert %s\n", oneLine(f.what()).c_str());
             vh::endCase();
             if (a.only >= 0) _exit(0);
             std::vector<char *> nargv;
